@@ -3,6 +3,7 @@ CONSTANTS
   Vars <- MC_NoVars
   KindsAt <- MC_NoSets
   ICsAt <- MC_NoSets
+  LineOK <- MC_LineAny
   ExoPaths <- MC_NoPaths
   ConstVal = 0
   MinVars = 0
